@@ -453,39 +453,43 @@ def proof_stage(ctx, modules, audit_module, exes=("soxrmodel",), gens=()):
         broken.append("lake build failed: " + " | ".join(errs)[:1500])
         ctx.notes.append(out[-3000:])
     scope = [m for m in modules if m.startswith("SoxrModel")]
-    if audit_module:
-        scope.append("SoxrModel.Audit." + audit_module)
+    audits = [audit_module] if isinstance(audit_module, str) else list(audit_module or [])
+    for a in audits:
+        scope.append("SoxrModel.Audit." + a)
     for e in exes:
         scope.append({"soxrmodel": "Driver"}.get(e, "SoxrModel.%s.Main" % e.replace("soxr_", "").capitalize()))
     hits = grep_forbidden(import_closure(scope))
     ctx.cov["lean_files_in_scope"] = len(import_closure(scope))
     if hits:
         broken.append("forbidden constructs in Lean sources: " + "; ".join(hits[:10]))
-    thms, raw = ({}, "")
-    if ok and audit_module:
-        thms, raw = print_axioms(audit_module)
-        if thms is None:
-            broken.append("axiom audit failed to run: " + raw[-1500:])
-            thms = {}
-        for name, ax in thms.items():
-            bad = [a for a in ax if a not in OK_AXIOMS]
-            if bad:
-                broken.append("theorem %s depends on non-standard axioms %s" % (name, bad))
-    stated = []
-    if audit_module:
-        pf = os.path.join(LEAN, "SoxrModel", "Properties", audit_module + ".lean")
+    thms, stated = {}, []
+    for a in audits:
+        t1 = {}
+        if ok:
+            t1, raw = print_axioms(a)
+            if t1 is None:
+                broken.append("axiom audit %s failed to run: %s" % (a, raw[-1500:]))
+                t1 = {}
+            for name, ax in t1.items():
+                bad = [x for x in ax if x not in OK_AXIOMS]
+                if bad:
+                    broken.append("theorem %s depends on non-standard axioms %s" % (name, bad))
+        pf = os.path.join(LEAN, "SoxrModel", "Properties", a + ".lean")
         if os.path.exists(pf):
-            stated = theorems_in(pf)
-            audited = set(n.split(".")[-1] for n in thms)
-            missing = [n for n in stated if n.split(".")[-1] not in audited]
+            st1 = theorems_in(pf)
+            audited = set(n.split(".")[-1] for n in t1)
+            missing = [n for n in st1 if n.split(".")[-1] not in audited]
             if ok and missing:
-                broken.append("theorems not covered by the axiom audit: " + ", ".join(missing[:10]))
+                broken.append("theorems of %s not covered by the axiom audit: %s" % (a, ", ".join(missing[:10])))
+            stated += st1
+        thms.update(t1)
+    audit_module = " ".join(audits)
     ctx.cov["obligations"] = max(len(stated), len(thms))
     ctx.cov["discharged"] = 0 if broken else len(thms)
     ctx.cov["theorems"] = sorted(thms.keys())
     ctx.cov["axioms_used"] = sorted(set(a for ax in thms.values() for a in ax))
-    ctx.cov["checker_cmd"] = "cd /verif/lean && lake build %s && lake env lean SoxrModel/Audit/%s.lean" % (
-        " ".join(modules), audit_module)
+    ctx.cov["checker_cmd"] = "cd /verif/lean && lake build %s && %s" % (
+        " ".join(modules), " && ".join("lake env lean SoxrModel/Audit/%s.lean" % a for a in audits))
     ctx.cov["trusted_base"] = [
         "Lean 4.33.0 kernel (lake build; leanchecker in the thorough tier)",
         "axioms: " + ", ".join(sorted(OK_AXIOMS)) + " only (audited by #print axioms on every run)",
